@@ -43,6 +43,11 @@ type resolver struct {
 	hosts      map[string]string // name -> ip | "!" (error) | "" (no addresses)
 	spareIP    string
 	seq        atomic.Int64
+	// Host names among the client's permanent peers (names.go).
+	e        *env
+	perm     map[string]*permName
+	permList []*permName
+	permMs   int
 
 	lookups        atomic.Int64
 	inHandler      atomic.Int64 // lookups made on the client's peer-handler goroutine
@@ -96,6 +101,16 @@ func (r *resolver) lookup(host string) ([]net.IP, error) {
 	if ip := net.ParseIP(host); ip != nil {
 		return []net.IP{ip}, nil
 	}
+	if pn := r.perm[host]; pn != nil {
+		ip, empty, fail := r.lookupPerm(pn)
+		switch {
+		case fail:
+			return nil, errors.New("lookup " + host + ": no such host")
+		case empty:
+			return nil, nil
+		}
+		return []net.IP{net.ParseIP(ip)}, nil
+	}
 	r.nameLookups.Add(1)
 	name := host
 	if strings.HasPrefix(name, "slow-") {
@@ -119,6 +134,13 @@ func (r *resolver) lookup(host string) ([]net.IP, error) {
 }
 
 func (r *resolver) open() { r.relOnce.Do(func() { close(r.release) }) }
+
+// newResolver is the resolver of a scenario before anything is scripted: IP
+// literals resolve to themselves, every name is unknown.
+func newResolver(e *env) *resolver {
+	return &resolver{e: e, hosts: map[string]string{}, perm: map[string]*permName{},
+		entered: make(chan struct{}), release: make(chan struct{})}
+}
 
 func hostOf(addr string) string {
 	if h, _, err := net.SplitHostPort(addr); err == nil {
@@ -151,7 +173,7 @@ type apiState struct {
 
 func (a *apiState) endCallers() { a.quitOnce.Do(func() { close(a.quit) }) }
 
-// setupAPI adds the spare peers and builds the resolver (before the client
+// setupAPI adds the spare peers and scripts the resolver (before the client
 // starts). It returns the addresses the client is configured with.
 func (e *env) setupAPI() (connect []string) {
 	ap := e.p.API
@@ -183,8 +205,8 @@ func (e *env) setupAPI() (connect []string) {
 		a.hosts = append(a.hosts, h+":18444", h)
 	}
 	sort.Strings(a.hosts)
-	r := &resolver{hosts: hosts, entered: make(chan struct{}), release: make(chan struct{}),
-		slowMs: ap.SlowLookupMs, gateResult: ap.GateResult}
+	r := e.rsv
+	r.hosts, r.slowMs, r.gateResult = hosts, ap.SlowLookupMs, ap.GateResult
 	if len(a.spares) > 0 {
 		r.spareIP = hostOf(a.spares[0])
 	} else {
